@@ -281,7 +281,8 @@ def gen_block(draw, depth, ind, state):
                 body = [f'"""doc {i}"""'] if draw(st.booleans()) else []
                 if depth < 3 and draw(st.integers(0, 2)) == 0:
                     body += draw(gen_block(depth + 1, ind, state))
-                body.append(f"return {i}")
+                # (the last line of a definition may end to the LEFT of its `def` keyword: a dedented closing bracket, a string closed at the margin)
+                body.append(draw(st.sampled_from([f"return {i}", f"return {i}", f"return {i}", f"return ({i}\n)", f"return {i} if \"\"\"x\n\"\"\" else 0"])))
                 lines.extend(ind + b for b in body)
             state["funcs"].append((f"f{i}", k, depth))
         elif k == "class":
@@ -297,6 +298,8 @@ def gen_block(draw, depth, ind, state):
                     body += draw(gen_block(depth + 1, ind, state))
                 else:
                     body.append(f"attr = {i}")
+                if draw(st.integers(0, 3)) == 0:
+                    body.append(f"last = [{i},\n]")
                 lines.extend(ind + b for b in body)
         else:
             inner = draw(gen_block(depth + 1, ind, state))
